@@ -127,7 +127,7 @@ func buildHost(tape *sim.Tape, bad bool) *c11Host {
 			if tape.Draw(3) == 0 {
 				// unquoted in the source (base64 needs no quotes); the re-encoded payload has
 				// parentheses and a quote, so the output URL must be quoted again
-				pl = []byte("<svg xmlns=\"http://www.w3.org/2000/svg\">  <g transform=\"translate(4,4)\">  <path d=\"M 1 1 L 2 2\"/> </g> <text>it's</text> </svg>")
+				pl = []byte("<svg xmlns=\"http://www.w3.org/2000/svg\" viewBox=\"0 0 40 40\">\n  <g transform=\"translate(4,4)\">\n    <path d=\"M 0 0 L 10 0 L 10 10 L 0 10 Z M 20 20 L 30 20 L 30 30 L 20 30 Z M 0 20 L 10 20 L 10 30 L 0 30 Z M 20 0 L 30 0 L 30 10 L 20 10 Z M 5 5 L 6 5 L 6 6 L 5 6 Z\"/>\n  </g>\n</svg>")
 				doc.WriteString(fmt.Sprintf(".c%d { background : url(", i))
 				s := c11Slot{MT: "image/svg+xml", Payload: pl, Ctx: "css url(data:) unquoted", Via: "datauri", Attr: true, Quoting: true}
 				s.Start = doc.Len()
